@@ -348,6 +348,26 @@ threads=1
 	}
 	snapshot := func() (transport.VerifC12Snap, bool) { return transport.VerifC12Snapshot(ts) }
 
+	direct := scn.Signal == "DIRECT" || scn.Signal == "EARLY"
+	var trig time.Time
+	if scn.Signal == "EARLY" {
+		// the schedule in which Shutdown is preempted right after its first statement: isClosed = 1 is stored, the accept
+		// loop still sits in Accept; the connection dialled now is the last one it takes (then it sees isClosed and leaves)
+		for {
+			if _, ok := snapshot(); ok {
+				break
+			}
+			select {
+			case <-returned:
+				finish("server stopped before the scenario began (listen failed?)")
+			default:
+			}
+			time.Sleep(2 * time.Millisecond)
+		}
+		obs.TriggerT = log.add("trigger", 0, 0)
+		trig = time.Now()
+		transport.VerifC12StoreClosed(ts)
+	}
 	// connect
 	conns := make([]net.Conn, len(scn.Conns))
 	keys := make([]string, len(scn.Conns))
@@ -398,7 +418,7 @@ threads=1
 		if n == len(keys) {
 			break
 		}
-		if time.Now().After(deadline) {
+		if time.Now().After(deadline) || (scn.Signal == "EARLY" && ok && sn.ListenClosed >= 1 && n < len(keys) && time.Since(trig) > 700*time.Millisecond) {
 			finish("connections not registered by the server")
 		}
 		time.Sleep(5 * time.Millisecond)
@@ -504,12 +524,14 @@ threads=1
 	if nAbort > 0 {
 		time.Sleep(30 * time.Millisecond)
 	}
-	if scn.Signal != "DIRECT" && !c12SignalReady(5*time.Second) {
+	if !direct && !c12SignalReady(5*time.Second) {
 		finish("the framework's signal handler was not installed within 5 s")
 	}
-	obs.TriggerT = log.add("trigger", 0, 0)
-	trig := time.Now()
-	if scn.Signal == "DIRECT" {
+	if scn.Signal != "EARLY" {
+		obs.TriggerT = log.add("trigger", 0, 0)
+		trig = time.Now()
+	}
+	if direct {
 		// TarsServer.Shutdown itself, with a context of GraceMs
 		go func() {
 			ctx, cancel := context.WithTimeout(context.Background(), time.Duration(scn.GraceMs)*time.Millisecond)
